@@ -194,6 +194,9 @@ class C13(Check):
         for why in ('ext', 'dir'):
             for srid in ('ENU', 'GEO'):
                 js.append(dict(kind='csv', srid=srid, sep='comma', lay=[0, 1, 2, 3], n=1, after_refused=why))
+        # round-5 history: a CSV import rejected by a selector (own time format), then a CSV round trip in the same process
+        for srid in ('ENU', 'GEO'):
+            js.append(dict(kind='csv', srid=srid, sep='comma', lay=[0, 1, 2, 3], n=1, after_rejected_read=True))
         # value-kind probes: coordinates held as numpy scalars / Python ints (WKT text, network geometries)
         for vk in ('npfloat', 'int', 'npint'):
             for srid in ('ENU', 'GEO'):
@@ -258,6 +261,25 @@ class C13(Check):
             finally:
                 try:
                     os.remove(os.path.join(SCRATCH, 'verif-c13-refused.txt'))
+                except OSError:
+                    pass
+        if 'after_rejected_read' in job:
+            import tracklib as _tl
+            from tracklib.algo.selection import MODE_INSIDE, TYPE_SELECT
+            p = os.path.join(SCRATCH, 'verif-c13-rejected-%d.csv' % os.getpid())
+            try:
+                with open(p, 'w') as f:
+                    f.write('2020-05-04 10:00:00,100.000,200.000\n2020-05-04 10:00:05,101.000,201.000\n')
+                sel = _tl.Selector([_tl.Constraint(shape=_tl.Rectangle(_tl.ENUCoords(-10, -10), _tl.ENUCoords(10, 10)), mode=MODE_INSIDE, type=TYPE_SELECT)])
+                fmt = _tl.TrackFormat({'ext': 'CSV', 'id_T': 0, 'id_E': 1, 'id_N': 2, 'id_U': -1, 'separator': ',', 'header': 0, 'srid': 'ENU',
+                                       'time_fmt': '4Y-2M-2D 2h:2m:2s', 'selector': sel})
+                try:
+                    trd.TrackReader.readFromFile(p, fmt)      # rejected by the selector: returns None; its only legitimate effect
+                except Exception:
+                    pass
+            finally:
+                try:
+                    os.remove(p)
                 except OSError:
                     pass
         if 'after_gpx' in job:
